@@ -223,11 +223,13 @@ fn into_range(
 ) -> Range<usize> {
     let start = match range.start_bound() {
         Bound::Included(i) => *i,
-        Bound::Excluded(i) => *i + 1,
+        Bound::Excluded(i) => i.checked_add(1)
+            .expect("attempted to index from after maximum usize"),
         Bound::Unbounded => 0,
     };
     let end = match range.end_bound() {
-        Bound::Included(i) => *i + 1,
+        Bound::Included(i) => i.checked_add(1)
+            .expect("attempted to index up to maximum usize"),
         Bound::Excluded(i) => *i,
         Bound::Unbounded => len,
     };
